@@ -63,7 +63,11 @@ seq_t dtw_warping_paths{{ suffix }}{{ suffix2 }}(seq_t *wps,
     {%- endif %}
 
     {%- if "affinity" not in suffix %}
-    if (settings->use_pruning || settings->only_ub) {
+    // The Euclidean distance is only an upper bound when its path (the diagonal, then along the
+    // border) is admissible and not penalized
+    bool use_pruning = settings->use_pruning && settings->max_step == 0 &&
+                       (settings->penalty == 0 || l1 == l2);
+    if (use_pruning || settings->only_ub) {
         {%- if "euclidean" == inner_dist %}
         if (ndim == 1) {
             p.max_dist = ub_euclidean_euclidean(s1, l1, s2, l2);
